@@ -19,16 +19,18 @@ echo "|---|---|---|---|---|"
 for d in seeded/C*/; do
   id=$(basename $d)
   prop=$(python3 -c "import json;print(json.load(open('$d/meta.json'))['property'])")
+  with=$(python3 -c "import json;d=json.load(open('$d/meta.json'));print(d.get('check_with',d['property']))")
   patch=$d/patch.diff; note=""
   if [ -f $d/patch.rebased.diff ]; then patch=$d/patch.rebased.diff; note=" (rebased)"; fi
   if ! git -C /repo diff --quiet; then echo "repo dirty"; exit 2; fi
   if ! git -C /repo apply $(pwd)/$patch 2>/dev/null; then
     echo "| $id | $prop | patch does not apply | - | |" >> $out; continue
   fi
-  log=$(./check $prop $tier 2>&1); rc=$?
+  log=$(./check $with $tier 2>&1); rc=$?
   git -C /repo checkout -- .
   classes=$(echo "$log" | grep -E "^  class:" | sed 's/  class: //' | head -3 | tr '\n' ';' | sed 's/|/\\|/g')
   det="NO"; [ $rc -eq 1 ] && det="yes"
+  [ "$with" != "$prop" ] && note="$note (checked with $with)"
   echo "| $id$note | $prop | $det | $rc | $classes |" >> $out
 done
 echo >> $out
